@@ -39,11 +39,12 @@ class token:
 
 def setup(world):
     world.opaque_globals[('yaql.language.utils', 'NO_VALUE')] = NV
-    # decode_escapes: T-conv - the codec raises UnicodeDecodeError on an
-    # ill-formed escape; whether the regex can hand it one is decided by the
-    # regex-inclusion obligation of C03 (it can: \\N{...} names are open)
-    world.callee_contract(L + 'decode_escapes', result=TStr,
-                          raises={'UnicodeDecodeError': True})
+    # decode_escapes is EXECUTED (not assumed): `PATTERN.sub(callback, s)`
+    # is modelled as "the callback may be applied to a match whose text is
+    # any member of L(PATTERN) occurring in s; what it raises propagates";
+    # codecs.decode(.., 'unicode-escape') is T-conv (a string, or
+    # UnicodeDecodeError); int(s, 16) / chr(n) follow CPython's error rules
+    install_re_models(world)
     world.opaque_attrs['lexdata'] = lambda recv, it: models.apply_uf(
         'a.lexdata', (recv,), 'Val')
     for cls in ('Constant', 'KeywordConstant', 'GetContextValue', 'Wrap',
@@ -54,6 +55,60 @@ def setup(world):
 
 
 LEXERR = 'YaqlLexicalException'
+
+
+def install_re_models(world):
+    import types
+    from vlib import regexlang as R
+    from vlib.pyvc.interp import Model
+
+    def re_compile(it, node, pattern, flags=0):
+        if not isinstance(pattern, str):
+            raise models.Unsupported('re.compile of a symbolic pattern')
+        fl = int(flags)
+        try:
+            lang = R.to_z3(pattern, fl)
+        except R.Unsupported as e:
+            raise models.Unsupported('regex translation: %s' % e)
+
+        def sub(it, node, repl, s, count=0):
+            s = TStr.wrap(TStr.unwrap(s)) if not isinstance(s, SStr) else s
+            res = SStr(z3.String(S.fresh_name('re_sub')))
+            it.calls.append(('re.sub', (pattern, s), res))
+            world.trusted_used.add(
+                're.Pattern.sub: the callback is applied to matches whose '
+                'text is in L(pattern) and occurs in the subject; its '
+                'exceptions propagate; the result is an uninterpreted '
+                'string')
+            if isinstance(repl, (str, SStr)):
+                return res
+            g = z3.String(S.fresh_name('match_text'))
+            it.path.symbols[str(g)] = g
+            has = z3.And(z3.InRe(g, lang), z3.Contains(s.t, g))
+            if it.branch(has):
+                m = types.SimpleNamespace(
+                    group=Model('match.group', lambda *a: SStr(g)),
+                    start=Model('match.start', lambda *a: TInt.fresh('ms')),
+                    end=Model('match.end', lambda *a: TInt.fresh('me')))
+                it.call(repl, [m], {}, node)
+            return res
+        return types.SimpleNamespace(pattern=pattern, flags=fl,
+                                     sub=Model('re.sub', sub, True))
+    world.lib[('re', 'compile')] = Model('re.compile', re_compile, True)
+    import re as _re
+    for fname in ('UNICODE', 'VERBOSE', 'IGNORECASE', 'MULTILINE', 'DOTALL'):
+        world.lib[('re', fname)] = int(getattr(_re, fname))
+
+    def codecs_decode(it, node, data, encoding='utf-8', errors='strict'):
+        world.trusted_used.add(
+            'T-conv: codecs.decode(str, "unicode-escape") returns a string '
+            'or raises UnicodeDecodeError')
+        bad = z3.Bool(S.fresh_name('codec_rejects'))
+        if it.branch(bad):
+            it.raise_('UnicodeDecodeError', node=node)
+        return SStr(models.apply_uf('codecs.decode', (data,), 'Str').t)
+    world.lib[('codecs', 'decode')] = Model('codecs.decode', codecs_decode,
+                                            True)
 
 
 def regex_facts():
@@ -124,8 +179,10 @@ def contracts():
           requires=['len(VALUE) >= 2'],
           raises={LEXERR: 'raised.args[1] == LEXPOS'},
           ensures=['result is t',
-                   'calls[0][0] == "contract:lexer.decode_escapes" and '
-                   'calls[0][1][0] == VALUE[1:-1] and t.value == '
+                   # the token's value is the escape substitution applied
+                   # to exactly the text between the quotes
+                   'calls[0][0] == "re.sub" and '
+                   'calls[0][1][1] == VALUE[1:-1] and t.value == '
                    'calls[0][2]'] + ([] if rule == 't_QUOTED_STRING' else [
                        't.type == "QUOTED_STRING"']),
           serves=('C03', 'C16'))
